@@ -102,7 +102,9 @@ func parseWith(r *simReader) (out parseOutcome) {
 	select {
 	case out = <-done:
 		return out
-	case <-time.After(time.Second):
+	case <-time.After(3 * time.Second):
+		// texts are at most a few tens of kilobytes and parse in milliseconds; three seconds is a
+		// grace period for a badly loaded machine, not a performance bound
 		return parseOutcome{Blocked: true}
 	}
 }
@@ -228,7 +230,7 @@ func ExecStreamCase(c *StreamCase) (*Violation, streamStats) {
 		return mk("panic", "parser panicked: "+out.Panic), st
 	}
 	if out.Blocked {
-		return mk("hang", fmt.Sprintf("ParseReader did not return within 1 s although the reader was not being called: the parser is blocked (input tail %q)", tail(c.Text, 40))), st
+		return mk("hang", fmt.Sprintf("ParseReader did not return within 3 s although the reader was not being called: the parser is blocked (input tail %q)", tail(c.Text, 40))), st
 	}
 	if out.Hung {
 		return mk("hang", fmt.Sprintf("ParseReader kept reading after end of input: more than %d Read calls after the reader reported EOF/error (input tail %q)", postEOFLimit, tail(c.Text, 40))), st
